@@ -1,6 +1,7 @@
 package main
 
 import (
+	"image"
 	"fmt"
 	"image/color"
 	"math"
@@ -421,9 +422,58 @@ func corrC14(c *corrCtx) {
 			c.emit("random/"+fn, fmt.Sprintf("col %s %s %x %x %x %x", s.name, fn, rr, g, b, a), wordsHex(colorOpGo(s, fn, rr, g, b, a)))
 		}
 	}
+	// image level: LineariseImage / EncodeImage over images with runs of equal colours whose alpha
+	// varies — every pixel's alpha must come out as it went in (and the rest as the per-pixel law says)
+	c14Images(c)
 	// encode side: every float32 class of alpha through the three ToXxx converters is in C02
 	if c.thorough() {
 		c14Exhaustive(c)
+	}
+}
+
+func c14Images(c *corrCtx) {
+	r := c.rng
+	xs := transforms()[1:]
+	reps := 1
+	if c.thorough() {
+		reps = 12
+	}
+	forceStructured = true
+	defer func() { forceStructured = false }()
+	for rep := 0; rep < reps; rep++ {
+		for _, x := range xs {
+			for _, sk := range []string{"rgba64", "nrgba64", "rgba", "nrgba"} {
+				for _, dk := range []string{"rgba64", "nrgba64", "rgba"} {
+					if !c.thorough() && r.intn(2) == 0 {
+						continue
+					}
+					w, h := 3+r.intn(14), 1+r.intn(5)
+					o := image.Pt(r.intn(9)-4, r.intn(9)-4)
+					src := newSource(r, sk, image.Rect(o.X, o.Y, o.X+w, o.Y+h))
+					sb := src.Bounds()
+					d := c10CaseX(c, r, "image/"+sk+"->"+dk, src, sb, dk, image.Pt(r.intn(9)-4, r.intn(9)-4), x, r.pick(1, 2, 5), false, r.intn(2) == 0)
+					// the alpha channel on its own
+					if d == nil {
+						continue
+					}
+					db := d.Bounds()
+					for y := 0; y < h; y++ {
+						for xx := 0; xx < w; xx++ {
+							_, _, _, ain := src.At(sb.Min.X+xx, sb.Min.Y+y).RGBA()
+							_, _, _, aout := d.At(db.Min.X+xx, db.Min.Y+y).RGBA()
+							want := ain
+							if dk == "rgba" {
+								want = (ain >> 8) * 0x101
+							}
+							if aout != want {
+								c.direct(fmt.Sprintf("C14/image-alpha/%s/%s->%s", x.name, sk, dk), "alpha of a pixel changes in LineariseImage/EncodeImage",
+									map[string]interface{}{"transform": x.name, "src": sk, "dst": dk, "x": xx, "y": y, "alpha_in": ain, "alpha_out": aout, "size": []int{w, h}})
+							}
+						}
+					}
+				}
+			}
+		}
 	}
 }
 
@@ -601,7 +651,7 @@ func corrC03(c *corrCtx) {
 		// bit-exact correspondence in batches: lattice and random triples, both directions + round trip
 		step := 64 // 2^18 lattice points out of 2^24
 		if c.thorough() {
-			step = 1
+			step = 4 // 2^22 lattice through the model; the round-trip oracle below covers all 2^24
 		}
 		nlat := (1 << 24) / step
 		for _, dir := range []string{"to", "from", "rt"} {
@@ -650,6 +700,66 @@ func corrC03(c *corrCtx) {
 					c.emit("xyz/"+dir+"/"+mode, fmt.Sprintf("xyzb %s %s %s %x %x %x", s.name, dir, mode, start, cnt, step), fmt.Sprintf("%016x", h.h))
 				}
 			}
+		}
+		// histories: each conversion right after one of a colour sharing two, one or no components with
+		// it (and with components equal to each other) — the result may depend on the argument only
+		nh := 1500
+		if c.thorough() {
+			nh = 30000
+		}
+		prev := [3]float32{0, 0, 0}
+		for k := 0; k < nh; k++ {
+			p := prev
+			switch r.intn(6) {
+			case 0:
+				p[r.intn(3)] = float32(r.intn(256)) / 255
+			case 1:
+				v := float32(r.intn(256)) / 255
+				i := r.intn(3)
+				p[i], p[(i+1)%3] = v, v
+			case 2:
+				p = [3]float32{p[1], p[2], p[0]}
+			case 3:
+				p = [3]float32{p[0], p[0], p[0]}
+			case 4:
+				p = [3]float32{float32(r.f64()), float32(r.f64()), float32(r.f64())}
+			default:
+				p[r.intn(3)] = float32(r.f64())
+			}
+			x := s.toXYZ(p)
+			want := mulv3(ref, [3]float64{float64(p[0]), float64(p[1]), float64(p[2])})
+			if math.Abs(float64(x.X)-want[0]) > 5e-6 || math.Abs(float64(x.Y)-want[1]) > 5e-6 || math.Abs(float64(x.Z)-want[2]) > 5e-6 {
+				c.direct(fmt.Sprintf("C03/history/%s/%08x%08x%08x", s.name, fb(p[0]), fb(p[1]), fb(p[2])), "ToXYZ is not the matrix applied to its argument when called after another colour (prev)",
+					map[string]interface{}{"space": s.name, "prev": prev, "in": p, "got": []float32{x.X, x.Y, x.Z}, "want": want})
+			}
+			c.emit("xyz/history", fmt.Sprintf("col %s toxyz %08x %08x %08x 0", s.name, fb(p[0]), fb(p[1]), fb(p[2])), fmt.Sprintf("%08x %08x %08x", fb(x.X), fb(x.Y), fb(x.Z)))
+			q := [3]float32{x.X, x.Y, x.Z}
+			if k%3 == 0 {
+				q = p // XYZ values sharing components with the previous call
+			}
+			back := s.fromXYZ(ciexyz.Color{X: q[0], Y: q[1], Z: q[2]})
+			wantB := mulv3(refInv, [3]float64{float64(q[0]), float64(q[1]), float64(q[2])})
+			for j := 0; j < 3; j++ {
+				if math.Abs(float64(back[j])-wantB[j]) > 1.5e-5 {
+					c.direct(fmt.Sprintf("C03/history-from/%s/%08x%08x%08x", s.name, fb(q[0]), fb(q[1]), fb(q[2])), "ColorFromXYZ is not the inverse matrix applied to its argument when called after another colour",
+						map[string]interface{}{"space": s.name, "in": q, "got": back, "want": wantB})
+				}
+			}
+			c.emit("xyz/history", fmt.Sprintf("col %s fromxyz %08x %08x %08x 0", s.name, fb(q[0]), fb(q[1]), fb(q[2])), fmt.Sprintf("%08x %08x %08x", fb(back[0]), fb(back[1]), fb(back[2])))
+			prev = p
+		}
+		if c.thorough() {
+			// round-trip oracle on the real code over the full 2^24 8-bit lattice
+			for k := 0; k < 1<<24; k++ {
+				p := xyzPointGo("lat", k, 0)
+				out := s.fromXYZ(s.toXYZ(p))
+				for j := 0; j < 3; j++ {
+					if math.Abs(float64(out[j])-float64(p[j])) > 2e-6 {
+						c.direct(fmt.Sprintf("C03/roundtrip-full/%s/%06x", s.name, k), "RGB->XYZ->RGB does not return the input within 2e-6", map[string]interface{}{"space": s.name, "in": p, "out": out})
+					}
+				}
+			}
+			c.stats["roundtrip-oracle-full-2^24/"+s.name] = 1 << 24
 		}
 		// XYZ -> RGB -> XYZ on the image of random in-range colours; single-case ops with extremes
 		for k := 0; k < 300; k++ {
@@ -758,7 +868,7 @@ func corrC04(c *corrCtx) {
 				batches = []struct {
 					mode              string
 					total, per, step  int
-				}{{"lat", 1 << 24, 8192, 1}, {"rnd", 2000000, 8192, 1}, {"alpha", 1 << 20, 8192, 4099}}
+				}{{"lat", 1 << 20, 8192, 16}, {"rnd", 400000, 8192, 1}, {"alpha", 1 << 18, 8192, 16387}}
 			}
 			for _, b := range batches {
 				for start := 0; start < b.total; start += b.per {
@@ -778,6 +888,15 @@ func corrC04(c *corrCtx) {
 					}
 					c.emit("pair/"+b.mode, fmt.Sprintf("c04b %s %s %s %x %x %x", src.name, dst.name, b.mode, start, cnt, b.step), fmt.Sprintf("%016x", h.h))
 				}
+			}
+			if c.thorough() {
+				// the property's own oracle over ALL 2^24 RGB values of this pair (real code only; the
+				// bit-exact model is compared on the 2^20 lattice above)
+				for k := 0; k < 1<<24; k++ {
+					px := color.NRGBA{R: uint8(k), G: uint8(k >> 8), B: uint8(k >> 16), A: 255}
+					check(px, convertGo(src, dst, ad, px))
+				}
+				c.stats["oracle-full-2^24/"+src.name+"->"+dst.name] = 1 << 24
 			}
 			// all greys, gamut-edge colours, all alphas: single-pixel ops
 			var pxs []color.NRGBA
